@@ -16,7 +16,8 @@ RULE = ("one case = one generated periodic world (emphasis: triclinic cells of e
 COMPONENTS = c04.COMPONENTS
 ASSUMPTIONS = ["placement bound: a proper rigid motion must map search+replacement coordinates onto matched+inserted positions within "
                "3*K*eps*sqrt(n) + 1e-6*(1+reach) (eps = noise actually planted, K*eps <= atol/2, so the bound is proportional to the tolerance)",
-               "joint-motion equality is compared only when no tie-break had more than one candidate (otherwise each run is judged on its own)"]
+               "joint-motion equality is compared only when no tie-break had more than one candidate in EITHER run (with a symmetric search pattern the set of "
+               "numerically valid orderings can depend on the pose; which of them is taken is the random generator's choice, so each run is judged on its own)"]
 NRUNS = {"quick": 4000, "thorough": 60000}
 MUST_REACH = ["inserted_atoms_checked", "triclinic_worlds", "inserted_atoms_needed_wrapping", "joint_motion_comparisons"]
 
@@ -68,6 +69,11 @@ def execute(spec, ctx):
         ctx.count("inserted_atoms_checked", n)
         if k == 0:
             first = (run, ctx.counters.get("tie_breaks_with_more_than_one_candidate", 0) - ties0)
+    # a second replacement on an object that went through other operations after the first one: the result of the first
+    # replacement is replicated, then the inserted groups are replaced back (state cached on the object must not survive)
+    if first is not None and spec["seed"] % 3 == 0 and spec["fraction"] == 1.0 and len(spec["replace"]["elements"]) >= 2 \
+            and len(first[0].result) * 2 <= 120 and not spec["replace"].get("cell"):
+        _second_phase(ctx, spec, first[0])
     # joint rigid motion of both patterns must not change the result
     if first is not None and spec.get("joint"):
         run0, ties = first
@@ -80,7 +86,9 @@ def execute(spec, ctx):
         search2 = worlds.build_pattern(sp2)
         replace2 = replcheck.build_replacement(rp2)
         spec2 = dict(spec, pattern=sp2, replace=rp2)
+        ties_before2 = ctx.counters.get("tie_breaks_with_more_than_one_candidate", 0)
         run2 = replcheck.run_replace(ctx, structure, search2, replace2, spec2, spec["scripts"][0])
+        ties = ties + (ctx.counters.get("tie_breaks_with_more_than_one_candidate", 0) - ties_before2)
         if run2.exc is not None:
             raise Violation("raises:%s" % type(run2.exc).__name__, "after moving both patterns jointly: %s" % run2.exc, site="replace_pattern_in_structure")
         if run2.found is not None and len(run2.selected) == run2.reported and not replcheck.overlapping([run2.found[0][i] for i in run2.selected]):
@@ -111,6 +119,39 @@ def execute(spec, ctx):
                     ctx.count("joint_motion_comparisons")
     if checked_total:
         ctx.key(spec["cell"], spec["positions"], spec["pattern"], spec["replace"])
+
+
+def _second_phase(ctx, spec, run0):
+    dims = [(2, 1, 1), (1, 2, 1), (1, 1, 2), (1, 1, 1)][spec["seed"] % 4]
+    try:
+        r2 = run0.result.replicate(dims)
+    except Exception as e:
+        raise Violation("raises:%s" % type(e).__name__, "replicate%s of a replacement result: %s" % (dims, e), site="replicate")
+    Ps = np.array(spec["pattern"]["positions"], float).reshape(-1, 3)
+    K = geom.amplification_K(Ps, spec["hints"])
+    eps = max([p["eps"] or 0.0 for p in spec["planted"] if p["kind"] == "copy"] + [0.0])
+    back_pat = {"elements": list(spec["replace"]["elements"]), "positions": [list(p) for p in spec["replace"]["positions"]]}
+    back_rep = {"elements": list(spec["pattern"]["elements"]), "positions": [list(p) for p in spec["pattern"]["positions"]], "charges": None, "groups": None, "mode": "back"}
+    spec2 = dict(spec, cell=np.array(r2.cell, float).tolist(), positions=np.array(r2.positions, float).tolist(), elements=list(r2.elements),
+                 pattern=back_pat, replace=back_rep, hints=None, fraction=1.0, replace_all=False,
+                 planted=[{"kind": "copy", "eps": K * eps, "indices": [], "pose": "derived", "boundary": 0}])
+    try:
+        findcheck.check_domain(spec2)
+    except Exception:
+        return
+    search2 = worlds.build_pattern(back_pat)
+    replace2 = replcheck.build_replacement(back_rep)
+    run2 = replcheck.run_replace(ctx, r2, search2, replace2, spec2, spec["scripts"][0], hints=None)
+    if run2.exc is not None:
+        if c04._is_overlap_error(run2.exc):
+            return
+        raise Violation("raises:%s" % type(run2.exc).__name__, "second replacement after replicate%s: %s" % (dims, run2.exc), site="replace_pattern_in_structure")
+    if run2.found is None or len(run2.selected) != run2.reported or replcheck.overlapping([run2.found[0][i] for i in run2.selected]):
+        return
+    acc2 = replcheck.account(ctx, spec2, r2, run2, prefix="c05")
+    n = placement_oracle(ctx, spec2, r2, run2, acc2)
+    ctx.count("second_phase_inserted_atoms_checked", n)
+    ctx.count("second_phases")
 
 
 shrink = c04.shrink
